@@ -336,7 +336,8 @@ def run(ctx):
                         # (needs_complete stays: the obstacle OBJECT keeps the records of its old horizon until a complete
                         # assignment, also across a removal and a later re-addition)
                         removed_before.add(k)
-                        center_only.discard(k)
+                        if k not in needs_complete:
+                            center_only.discard(k)
                         assigned = {a for a in assigned if a[0] != k} | {a for a in assigned if a[0] == k}
             except Exception as e:  # noqa
                 import traceback
